@@ -73,6 +73,7 @@ def run_case(xs, mold, burn, cells, fill=7.5):
         else:
             m[key] = 2.0
     out = {}
+    untouched = False
     batch_ok = True
     pop_ok = True
     status = "ok"
@@ -117,6 +118,9 @@ def run_case(xs, mold, burn, cells, fill=7.5):
                 ModelParameter.compute_update, State.__setitem__ = o_cu, o_set
         except Exception as e:  # noqa: BLE001
             status = f"{type(e).__name__}"
+            # a refused step must leave every parameter as it was
+            untouched = bool(torch.equal(st["tau_mean"], torch.tensor([float(mold)])) and torch.equal(st["tau_std"], torch.tensor([1.0]))
+                             and torch.equal(st["noise_std"], torch.ones(noise_dim)) and torch.equal(st["log_g_mean"], torch.tensor([0.0, 0.0])))
             break
         first_a = next((i for i, s in enumerate(steps) if s[0] == "a"), len(steps))
         batch_ok &= all(s[0] == "c" for s in steps[:first_a]) and all(s[0] == "a" for s in steps[first_a:]) and first_a == len(steps) - first_a
@@ -133,5 +137,5 @@ def run_case(xs, mold, burn, cells, fill=7.5):
                                    int(w[:, :, f].sum())) for f in range(n_f)]
     zero = {"num": 0, "den": 0, "close": False}
     rec.update(status=status, mean=out.get("mean", zero), var=out.get("var", zero), noise_scalar=out.get("noise_scalar", zero),
-               noise_ft=out.get("noise_ft", [zero] * n_f), batch_ok=bool(batch_ok), pop_identity=bool(pop_ok))
+               noise_ft=out.get("noise_ft", [zero] * n_f), batch_ok=bool(batch_ok), pop_identity=bool(pop_ok), untouched=bool(untouched))
     return rec
